@@ -15,6 +15,75 @@ import (
 
 const CheckpointKey = "redis-shake-checkpoint"
 
+// Marker is put into the value of every key of source database db, so that the source database
+// of a RESTORE / SET seen by the target stays observable when target.db folds all databases
+// into one.
+func Marker(db int) string { return fmt.Sprintf("dbval%d;", db) }
+
+// Attribute extracts (source database, key) from a RESTORE or SET command the target applied.
+func Attribute(argv [][]byte) (srcdb int, key string, ok bool) {
+	if len(argv) < 3 {
+		return 0, "", false
+	}
+	var payload []byte
+	switch strings.ToLower(string(argv[0])) {
+	case "restore":
+		if len(argv) < 4 {
+			return 0, "", false
+		}
+		payload = argv[3]
+	case "set":
+		payload = argv[2]
+	default:
+		return 0, "", false
+	}
+	i := strings.Index(string(payload), "dbval")
+	if i < 0 {
+		return 0, "", false
+	}
+	rest := string(payload[i+5:])
+	j := strings.Index(rest, ";")
+	if j <= 0 {
+		return 0, "", false
+	}
+	n, err := strconv.Atoi(rest[:j])
+	if err != nil {
+		return 0, "", false
+	}
+	return n, string(argv[1]), true
+}
+
+// Observed folds the commands a target applied into the set of (source db, key) pairs that
+// reached it. tdb >= 0: everything must have been written into database tdb; tdb < 0: into the
+// source database. Every pair may arrive at most once.
+type AppliedCmd struct {
+	DB   int
+	Argv [][]byte
+}
+
+func Observed(cmds []AppliedCmd, tdb int) (got map[string]bool, kind, what string) {
+	got = map[string]bool{}
+	for _, a := range cmds {
+		src, key, ok := Attribute(a.Argv)
+		if !ok {
+			continue
+		}
+		want := src
+		if tdb >= 0 {
+			want = tdb
+		}
+		if a.DB != want {
+			return got, "wrong-target-db", fmt.Sprintf("key %q of source db %d was written into target db %d, expected %d", key, src, a.DB, want)
+		}
+		id := fmt.Sprintf("%d/%s", src, key)
+		if got[id] {
+			return got, "copied-twice", fmt.Sprintf("key %q of source db %d was written twice", key, src)
+		}
+		got[id] = true
+	}
+	return got, "", ""
+}
+
 type Config struct {
 	KeyWhite []string `json:"key_whitelist"`
 	KeyBlack []string `json:"key_blacklist"`
